@@ -199,6 +199,15 @@ func (_this *Context) BeginMap() {
 }
 
 func (_this *Context) NotifyKey(key interface{}) {
+	if n, ok := key.(negint); ok && n != 0 {
+		// Normalize the negative-integer form so that it collides with the same value in any other integer form
+		if uint64(n) <= 1<<63 {
+			key = int64(-uint64(n))
+		} else {
+			b := new(big.Int).SetUint64(uint64(n))
+			key = b.Neg(b)
+		}
+	}
 	switch v := key.(type) {
 	case int:
 		if v >= 0 {
